@@ -933,4 +933,5 @@ UNITS_WAIT = [WaitUnitBase, WaitUnitThreading, AsCompletedUnit, AsCompletedUnitT
 UNITS = [ProcInit, ProcInitNone, ProcessRun, ProcessRunNoTarget, CollectResult, ProcJoin, ProcJoinTimeout, ProcException, ProcResult, ProcDone,
          ThreadRun, ThreadRunNoTarget, ThreadJoin, ThreadResult, ThreadException] + UNITS_WAIT + [Agreement]
 
+
 SCENARIOS = [('', 'replay/scenarios/c12_sigkill_wait.py')]
